@@ -718,12 +718,26 @@ func (r *Run) checkSkipCount(all *prog.FuncInfo, lit *ast.FuncLit, loop ast.Stmt
 	}
 	// expected: +1*startAfter -1*first +1
 	var firstName string
-	inspect(lit.Body, func(nd ast.Node) bool {
-		if a, ok := nd.(*ast.AssignStmt); ok && len(a.Rhs) == 1 && a.Pos() < loop.Pos() {
-			if call, ok := ast.Unparen(a.Rhs[0]).(*ast.CallExpr); ok && fieldToken(r.P.CalleeFunc(info, call)) == "U64" && firstName == "" {
-				if id, ok := a.Lhs[0].(*ast.Ident); ok {
-					firstName = id.Name
-				}
+	ast.Inspect(lit.Body, func(nd ast.Node) bool {
+		if a, ok := nd.(*ast.AssignStmt); ok && len(a.Rhs) == 1 && a.Pos() < loop.Pos() && firstName == "" {
+			// the first sequence number: read here, or in an extracted helper that returns it
+			id, isID := a.Lhs[0].(*ast.Ident)
+			if !isID {
+				return true
+			}
+			if call, ok := ast.Unparen(a.Rhs[0]).(*ast.CallExpr); ok && fieldToken(r.P.CalleeFunc(info, call)) == "U64" {
+				firstName = id.Name
+			} else if oc, idx := valueOrigin(info, a.Rhs[0], 0); oc != nil && idx == 0 && fieldToken(r.P.CalleeFunc(info, oc)) == "U64" {
+				// the name linearOf will use for it: what a use of the variable resolves to
+				def := info.Defs[id]
+				ast.Inspect(lit.Body, func(m ast.Node) bool {
+					if u, ok := m.(*ast.Ident); ok && def != nil && info.Uses[u] == def && firstName == "" {
+						if o := prog.IdentObj(info, u); o != nil {
+							firstName = o.Name()
+						}
+					}
+					return true
+				})
 			}
 		}
 		return true
@@ -803,6 +817,10 @@ func linearOf(info *types.Info, body ast.Node, e ast.Expr) (map[string]int, bool
 						}
 					}
 				}
+			}
+			if o := prog.IdentObj(info, x); o != nil {
+				out[o.Name()] += sign // (the variable it names, through aliases and helper results)
+				return true
 			}
 			out[x.Name] += sign
 			return true
